@@ -1,5 +1,6 @@
 import Bpmn.Driver.C01
 import Bpmn.Props.C12Nest
+import Bpmn.Props.C12Loop
 /-! Driver for C12: a case holds two runs of one generated program — sub-process blocks wrapped in 1..3 levels of
 embedded sub-process, then (after the line `variant inline`) the same program with the content inlined. Each run is
 judged like a C01 run; in addition the two request histories must coincide answer by answer. -/
@@ -97,6 +98,50 @@ def checkNest (params lines : List String) : CaseResult := Id.run do
   -- the model must itself say what the theorem says (a run-time echo of `nest_run`, not a proof)
   if sf.topLive p || s0.outOfScope.isSome || sf.outOfScope.isSome then
     r := { r with specs := s!"nest_model_incomplete: depth {d}: the model's run of nestProc {d} {k} does not complete" :: r.specs }
+  return { r with nontrivial := r.diffs.isEmpty && r.specs.isEmpty }
+
+/-- family c12loop: the real engine on the program `loopProc N` of `Props/C12Loop` (same element names); params `N v₁ v₂ …`:
+the values the inner task is answered with, round after round. The model's run of `loopProc N` at the extracted configuration
+against the recorded history, round by round. -/
+def checkLoop (params lines : List String) : CaseResult := Id.run do
+  let some nums := params.mapM String.toInt? | return { bad := ["c12loop params"] }
+  let (N, vals) := match nums with
+    | n :: vs => (n, vs)
+    | [] => (0, [])
+  if vals.isEmpty then return { bad := ["c12loop params"] }
+  let p := Bpmn.Props.C12Loop.loopProc N
+  let cfg := C01.faithful
+  let s0 := Bpmn.Model.Engine.start cfg p [("c", 0)]
+  let (steps, sf) := Bpmn.Props.C12Loop.roundsC cfg N 1 s0 vals
+  let model := obsWords s0.obs :: steps.map obsWords
+  let mut segs : List (List String) := []
+  let mut cur : List String := []
+  let mut done := ""
+  let mut bad : List String := []
+  for ln in lines do
+    match words ln with
+    | ["c12loop", "answer", _] => segs := segs ++ [cur]; cur := []
+    | ["c12loop", "done", b] => done := b
+    | "obs" :: "task" :: n :: _ => cur := cur ++ [s!"task {n}"]
+    | ["obs", "complete", n] => if n == "e" then cur := cur ++ [s!"complete {n}"]
+    | ["obs", "visit", n] => if n == "ue" then cur := cur ++ [s!"complete {n}"]
+    | "obs" :: "error" :: c :: _ => cur := cur ++ [s!"error {c}"]
+    | "obs" :: "norequest" :: rest => bad := bad ++ ["norequest " ++ " ".intercalate rest]
+    | ["obs", "noquiesce"] => bad := bad ++ ["noquiesce"]
+    | "harness-error" :: rest => bad := bad ++ ["harness-error " ++ " ".intercalate rest]
+    | _ => pure ()
+  segs := segs ++ [cur]
+  let mut r : CaseResult := {}
+  if segs != model then
+    r := { r with diffs := [s!"loop bound {N} values {vals}: engine {segs} model (loopProc {N}) {model}"] }
+  if !bad.isEmpty then
+    r := { r with specs := bad.map (fun b => s!"loop_stuck: bound {N} values {vals}: {b}") }
+  -- the last value is the one that leaves the loop: the instance completes
+  let leaves := match vals.getLast? with | some v => !(v < N) | none => false
+  if leaves && done != "1" && bad.isEmpty then
+    r := { r with specs := s!"loop_not_complete: bound {N} values {vals}: the loop was left, the instance does not complete" :: r.specs }
+  if leaves && (sf.topLive p || sf.outOfScope.isSome) then
+    r := { r with specs := s!"loop_model_incomplete: bound {N} values {vals}: the model's run of loopProc {N} does not complete" :: r.specs }
   return { r with nontrivial := r.diffs.isEmpty && r.specs.isEmpty }
 
 end Bpmn.Driver.C12
